@@ -385,7 +385,9 @@ func fcStracePut(self, base, dir string, typ uint8, session, key string, val []b
 	logf := filepath.Join(base, "strace.log")
 	args := []string{"-f", "-xx", "-s", "400000",
 		"-e", "trace=openat,open,creat,write,pwrite64,rename,renameat,renameat2,unlink,unlinkat,fchmod,chmod,fchmodat,close,ftruncate,truncate"}
-	if inject != "" {
+	if strings.Contains(inject, ":error=") {
+		args = append(args, "-e", "inject="+inject) // a failing system call, not a kill
+	} else if inject != "" {
 		args = append(args, "-e", "inject="+inject+":signal=KILL")
 	}
 	args = append(args, "-o", logf, self, "fscrash_put1")
@@ -398,7 +400,7 @@ func fcStracePut(self, base, dir string, typ uint8, session, key string, val []b
 	out, err := cmd.CombinedOutput()
 	killed := false
 	if err != nil {
-		if inject == "" {
+		if inject == "" || strings.Contains(inject, ":error=") {
 			return nil, false, "", fmt.Errorf("strace: %v: %s", err, out)
 		}
 		killed = true
@@ -1153,6 +1155,11 @@ func fcGenPair(r *rand.Rand, idx int, kind string) (fcPair, error) {
 	n := len(pr.blobs)
 	pr.blobs = append(pr.blobs, o1[len(o1)-1], o2[len(o2)-1], []byte("note of "+sid))
 	pr.fs0 = append(pr.fs0, fcFile{"@u1", n}, fcFile{"@zz", n + 1}, fcFile{"P" + sid + ".note", n + 2})
+	if kind == "pair" && idx%3 == 0 {
+		// next to the typed record a file under the session's bare (legacy) name that is no session record:
+		// the typed record must win
+		pr.fs0 = append(pr.fs0, fcFile{sid, n + 2})
+	}
 	if kind == "stale" || kind == "tmpsid" {
 		// a temp file left behind by an earlier crashed save
 		pr.fs0 = append(pr.fs0, fcFile{".tmp-42", n})
@@ -1298,6 +1305,34 @@ func runFsCrash(o opts) error {
 		w.Add(hx.Case{Term: fmt.Sprintf("FRetry %s %s %s", hx.Bool(failed), hx.S(got), hx.S(want)), Kind: "failed-save-retried",
 			Key:  fmt.Sprintf("retry-%s-%v-%v", sid, ins, flush),
 			Desc: map[string]interface{}{"session": sid, "history": ins, "with_flush": flush, "first_finish_failed": failed, "stored_after_retry": got, "stored_without_failure": want}})
+	}
+
+	// (2d) a save whose write FAILS (ENOSPC injected into the first write of the real Put): the error must be
+	// reported and the previous record must still be the session's record
+	nwf := 2 + o.n/20
+	for i := 0; i < nwf; i++ {
+		r := hx.Rng(o.seed, "fscrash-writefail", i)
+		pr, err := fcGenPair(r, i, "pair")
+		if err != nil {
+			return err
+		}
+		base, err := os.MkdirTemp("/tmp", "fscrash-wf-")
+		if err != nil {
+			return err
+		}
+		dir := fcStoreFor(pr, base)
+		want, _ := fcSnapshot(dir, pr.sid)
+		_, _, out, err := fcStracePut(self, base, dir, db.DATATYPE_STATE, "", pr.sid, pr.blobs[pr.newi], "write:error=ENOSPC:when=1", false)
+		if err != nil {
+			os.RemoveAll(base)
+			return err
+		}
+		got, _ := fcSnapshot(dir, pr.sid)
+		os.RemoveAll(base)
+		failed := strings.Contains(out, "PUTERR")
+		w.Add(hx.Case{Term: fmt.Sprintf("FRetry %s %s %s", hx.Bool(failed), hx.S(got), hx.S(want)), Kind: "write-fails",
+			Key:  pr.key("writefail"),
+			Desc: map[string]interface{}{"session": pr.sid, "history": pr.hist, "put_reported_error": failed, "stored_after": got, "stored_before": want}})
 	}
 
 	// (3) self-test: the operation list before the repair must be flagged
